@@ -145,6 +145,9 @@ class CallMixin:
             if declared:
                 # class invariant: objects that exist before the call were built by their __init__
                 self._add_axiom(z3.Implies(r < smt.FRESH_BASE, v != smt.ABSENT))
+            elif not c.builtin and c.lookup(name) is not None and c.lookup(name)[0] == 'attr':
+                # A-classes: class-level constants are not shadowed by instance attributes
+                self._add_axiom(z3.Implies(r < smt.FRESH_BASE, v == smt.ABSENT))
             if self.implied(v != smt.ABSENT):
                 return v
             if not self.branch(v == smt.ABSENT):
@@ -488,7 +491,11 @@ class CallMixin:
         tag = smt.tag_of(v)
         if tag is not None and tag != 'ref':
             return z3.BoolVal(False)
-        term = z3.And(Val.is_ref(v), self.sub_term(smt.cls_of(Val.r(v)), K))
+        cidt = smt.cls_of(Val.r(v))
+        # being an instance of K entails being an instance of K's bases, and the class is one of the
+        # library's subclasses of K or a class unknown to it (open universe)
+        self._add_axiom(z3.Implies(z3.And(Val.is_ref(v), self.sub_term(cidt, K)), self.sub_chain(cidt, K)))
+        term = z3.And(Val.is_ref(v), self.sub_term(cidt, K))
         term = smt.simp(term)
         self.isinst_terms[term.get_id()] = (v, K)
         # the engine branches on Val.is_ref and sub() separately after simplification: index both
